@@ -40,8 +40,4 @@ def run(ctx):
     ctx.floor("E2-C", "scheme items inside the scheme traits", n, 12)
     # 5. purpose separation: (tag, message-class) pairs at core_* call sites
     K.check_purpose_separation(ctx, P)
-    # 6. wire-tag tables of SignatureSchemes are mutually inverse (shared with C15)
-    from . import codecs
-
-    codecs.check_tag_tables(ctx, P, only=("SignatureSchemes",))
     ctx.assume("hash-to-curve with distinct DSTs behaves as independent random oracles (cryptographic assumption)")
